@@ -26,13 +26,16 @@ type SlowCase struct {
 func slowOne(op string, delay time.Duration) error {
 	def := vh.Script{Sig: &ssh.Signature{Format: ssh.KeyAlgoED25519, Blob: bytes.Repeat([]byte{7}, 64)}, Slots: []string{"9a"}}
 	rec := vh.NewRecAgent(def)
-	var once sync.Once
+	var dmu sync.Mutex
+	slowLeft := 2 // the first two calls of the operation are slow: the pipelined one and the first lock-step one
 	rec.Delay = func(o string) time.Duration {
-		d := time.Duration(0)
-		if o == op {
-			once.Do(func() { d = delay })
+		dmu.Lock()
+		defer dmu.Unlock()
+		if o == op && slowLeft > 0 {
+			slowLeft--
+			return delay
 		}
-		return d
+		return 0
 	}
 	pub := vh.SSHPub("ed25519c").Marshal()
 	frame := map[string][]byte{
@@ -63,6 +66,35 @@ func slowOne(op string, delay time.Duration) error {
 		c2.Close()
 		done <- ret
 	}()
+	readOne := func(limit time.Duration) ([]byte, error) {
+		_ = c1.SetReadDeadline(time.Now().Add(limit))
+		var l [4]byte
+		if _, rerr := io.ReadFull(c1, l[:]); rerr != nil {
+			return nil, rerr
+		}
+		n := int(l[0])<<24 | int(l[1])<<16 | int(l[2])<<8 | int(l[3])
+		body := make([]byte, n)
+		_, rerr := io.ReadFull(c1, body)
+		return body, rerr
+	}
+	// pipelined first: list, the slow request, list, an unknown request written in one piece; the
+	// responses come back one per frame, in the order of the frames, however long the second one takes
+	piped := [][]byte{{11}, frame, {11}, {200, 9}}
+	var burst []byte
+	for _, f := range piped {
+		burst = append(burst, sshString(f)...)
+	}
+	if _, werr := c1.Write(burst); werr != nil {
+		return vh.Errf("slow %s: writing the pipelined frames failed: %v", op, werr)
+	}
+	var pipedReplies [][]byte
+	for i := range piped {
+		body, rerr := readOne(delay + 20*time.Second)
+		if rerr != nil {
+			return vh.Errf("slow %s (the served agent takes %s for it), 4 frames sent back to back: frame %d (code %d) got no response: %v", op, delay, i, piped[i][0], rerr)
+		}
+		pipedReplies = append(pipedReplies, body)
+	}
 	// lock-step client: one request, its response, the next
 	var replies [][]byte
 	for i, f := range frames {
@@ -80,6 +112,12 @@ func slowOne(op string, delay time.Duration) error {
 			return vh.Errf("slow %s: response %d cut short: %v", op, i, rerr)
 		}
 		replies = append(replies, body)
+	}
+	// the pipelined responses are, position by position, what the same frames get in lock step
+	for i, want := range [][]byte{replies[0], replies[1], replies[2], replies[3]} {
+		if !bytes.Equal(pipedReplies[i], want) {
+			return vh.Errf("slow %s (the served agent takes %s for it): 4 frames sent back to back (list, %s, list, unknown): response %d is %.60q, but that frame is answered with %.60q when sent alone - responses out of request order", op, delay, op, i, pipedReplies[i], want)
+		}
 	}
 	// identical requests, identical responses (the second, fast occurrence answers like the slow one)
 	if !bytes.Equal(replies[1], replies[4]) || !bytes.Equal(replies[0], replies[2]) || !bytes.Equal(replies[0], replies[5]) {
@@ -104,7 +142,7 @@ func TestC12SlowHandler(t *testing.T) {
 		cases = append(cases, SlowCase{DelayMS: 1100, SlowOps: ops}, SlowCase{DelayMS: 11000, SlowOps: ops}, SlowCase{DelayMS: 31000, SlowOps: ops})
 	}
 	vh.Enumerate(t, vh.Spec[SlowCase]{Property: "C12", Name: "TestC12SlowHandler", Exhaustive: true,
-		Rule: "a recording agent served over a real unix socket pair takes 4 s (thorough: also 1.1, 11 and 31 s) for the first list / sign / wait / add-hardware-certificate / raw forward / list-slots / remove-all call (7 connections side by side); the peer sends list, the slow request, list, an unknown request, the same request again, list in lock step. Oracle: every frame gets its response (however long the served agent took), identical requests get identical responses, the connection ends cleanly when the peer closes it",
+		Rule: "a recording agent served over a real unix socket pair takes 4 s (thorough: also 1.1, 11 and 31 s) for the first list / sign / wait / add-hardware-certificate / raw forward / list-slots / remove-all call (7 connections side by side); the peer first sends list, the slow request, list, an unknown request back to back in one write and reads the four responses, then sends list, the request, list, an unknown request, the same request again, list in lock step. Oracle: every frame gets its response (however long the served agent took), the back-to-back responses equal, position by position, the lock-step responses of the same frames (request order), identical requests get identical responses, the connection ends cleanly when the peer closes it",
 		Exec: func(c SlowCase) (vh.Outcome, error) {
 			out := vh.Outcome{NonTrivial: true}
 			errs := make([]error, len(c.SlowOps))
